@@ -102,6 +102,14 @@ func (st *c16State) checkAscend() (vs []eng.Violation) {
 		{"WithString(s,=a)", func(t *column.Txn) { t.WithString("s", func(v string) bool { return v == "a" }) }, func(r *model.Row) bool { return r.V["s"].S == "a" && hasCol(r, "s") }},
 		{"WithInt(n,>1)", func(t *column.Txn) { t.WithInt("n", func(v int64) bool { return v > 1 }) }, func(r *model.Row) bool { return hasCol(r, "n") && int64(r.V["n"].N) > 1 }},
 		{"Without(s)", func(t *column.Txn) { t.Without("s") }, func(r *model.Row) bool { return !hasCol(r, "s") }},
+		{"Without(n)", func(t *column.Txn) { t.Without("n") }, func(r *model.Row) bool { return !hasCol(r, "n") }},
+		{"Union(n,s)", func(t *column.Txn) { t.Union("n", "s") }, func(r *model.Row) bool { return hasCol(r, "n") || hasCol(r, "s") }},
+		{"With(n).WithString(s,=b)", func(t *column.Txn) { t.With("n").WithString("s", func(v string) bool { return v == "b" }) },
+			func(r *model.Row) bool { return hasCol(r, "n") && hasCol(r, "s") && r.V["s"].S == "b" }},
+		{"With(s).WithUnion(n,zz)", func(t *column.Txn) { t.With("s").WithUnion("n", "zz") }, func(r *model.Row) bool { return hasCol(r, "s") && hasCol(r, "n") }},
+		{"WithValue(s,len>1)", func(t *column.Txn) {
+			t.WithValue("s", func(v interface{}) bool { x, ok := v.(string); return ok && len(x) > 1 })
+		}, func(r *model.Row) bool { return hasCol(r, "s") && len(r.V["s"].S) > 1 }},
 	}
 	for _, f := range filters {
 		eng.Sub["ascend_runs"]++
@@ -162,18 +170,18 @@ func init() {
 		Prop:  "C16",
 		Level: "model_checking",
 		Rule: "every history up to depth d over {insert a / b / without the string, overwrite a / b, concatenating merge, delete (offset reuse), createSortIndex} on strings over {a,b} " +
-			"(duplicates forced) in one and several blocks; at every node Ascend runs after each of 5 filter chains and must visit exactly the selected rows holding a value, once each, " +
+			"(duplicates forced) in one and several blocks; at every node Ascend runs after each of 10 filter chains (length 0-2) and must visit exactly the selected rows holding a value, once each, " +
 			"values non-decreasing and readers positioned; states = distinct (model state, index present)",
 		Assumptions: []string{"only ascending iteration exists in the API"},
 		Budget:      budget(170*time.Second, 28*time.Minute),
 		Bounds: func(tier string) map[string]any {
 			if tier == "quick" {
-				return map[string]any{"depth": "5 (empty), 4 (sparse-3)"}
+				return map[string]any{"depth": "6 (empty), 4 (sparse-3)"}
 			}
 			return map[string]any{"depth": "7 (empty), 5 (sparse-3), 3 (block-edge)"}
 		},
 		Units: func(tier string) (units []eng.Unit) {
-			specs := []c16Spec{{"empty", 5}, {"sparse-3", 4}}
+			specs := []c16Spec{{"empty", 6}, {"sparse-3", 4}}
 			if tier != "quick" {
 				specs = []c16Spec{{"empty", 7}, {"sparse-3", 5}, {"block-edge", 3}}
 			}
